@@ -601,6 +601,8 @@ let check_dump (id : string) (lines : string list) =
            (match make_program mAX_GUARD_SIZE d0 ordered (List.rev !ctx_dfas) with
             | Panic t -> pr "GCODE PANIC %s\n" (tag_name t)
             | Ok p ->
+                (* side conditions of GenCodeProofs (chars_nodup_b_sound, ctx_code_ok_b_sound) on these automata *)
+                pr "CERT GENCODE charsok=%d ctxok=%d\n" (b (chars_nodup_b p)) (b (List.for_all ctx_code_ok_b p.p_ctxs));
                 List.iter (fun (nm, v) -> pr "GSWITCH %s %d\n" (string_of_name nm) (int_of_nat v)) p.p_switch;
                 print_gencode p)
        | "RULESET" :: nm :: _ -> (if nm <> "-" then rs_names := nm :: !rs_names); incr i
